@@ -46,8 +46,8 @@ CHECKS.update({
                   "each, labels untouched. The multiset spec oracle (copies + last label per pair; multigraph/weighted: opinion only once no pair is duplicated) and the Coq model are "
                   "compared with /repo on histories mixing forced/unforced insertions, removeEdge and removeDuplicateEdges for all six classes.",
              note=TB + "Proved for the directed and undirected labelled models and (C16_multigraph_*) for both multigraphs, including 'forced then removeDuplicateEdges == built without force' "
-                  "EXACTLY WHEN repeated insertions of a pair agree on the label (closed counterexample otherwise: the forced run keeps the last label, the unforced the first); the "
-                  "weighted classes' forced behaviour is covered by the correspondence and the spec oracle. For multigraphs 'the graph built without force' is read as the deduplicated graph (one copy per pair carrying the common multiplicity), as the "
+                  "EXACTLY WHEN repeated insertions of a pair agree on the label (closed counterexample otherwise: the forced run keeps the last label, the unforced the first); the weighted classes likewise (C16_weighted_*: forced add, removeEdge = copies x stored weight, dedup restores total = sum of stored weights and == unforced with equal "
+                  "totals when all copies carry the same weight - the property's proviso; outside it the total drifts, kept as closed examples). For multigraphs 'the graph built without force' is read as the deduplicated graph (one copy per pair carrying the common multiplicity), as the "
                   "repository's own tests do.",
              tech="Coq lemmas on the weak (duplicate-tolerant) invariant + differential correspondence with a multiset spec oracle", ref="DESIGN.md §6 C16"),
 })
@@ -84,8 +84,10 @@ CHECKS.update({
                   "their labels on every graph satisfying the invariant; reversing twice is == the original; the edge-list constructor yields 1+max-index vertices (0 for an empty list) and "
                   "the graph of adding the edges one at a time (first label wins), for every list. C09_get_directed_graph / C09_undirected_from_directed / C09_undirected_round_trip (undirected "
                   "model, every label type): getDirectedGraph has both orientations of every edge with the edge's label, undirected-from-directed has {i,j} iff either orientation exists "
-                  "(label of the orientation with the smaller source), and undirected->directed->undirected is == the original. PARTIAL: the constructors of the other seven classes and "
-                  "copy/assignment are covered by the correspondence check against the Coq model and the spec images, with four or five standard containers.",
+                  "(label of the orientation with the smaller source), and undirected->directed->undirected is == the original. C09_*_edge_list_constructor: the constructors of the undirected labelled class (first entry naming the unordered pair wins), "
+                  "both multigraphs (multiplicity = sum over the entries naming the pair, zero entries count for the size only) and both weighted graphs (first weight wins), for every "
+                  "list. PARTIAL only in that copy construction/assignment are identities in a model of immutable values; they and all constructors through four or five standard "
+                  "containers are exercised by the correspondence check.",
              note=TB + "Copy construction/assignment independence is a property of C++ value semantics (identity in the model), exercised under C06.",
              tech="Coq proof (fold-of-addEdge lemmas, directed and undirected -> reversal, double reversal, constructor, both conversions, round trip) + differential correspondence for all conversions/constructors", ref="DESIGN.md §6 C09"),
 })
@@ -103,8 +105,8 @@ CHECKS.update({
                   "(statement by statement: distance/parent/visited vectors, FIFO queue) yields hop minima over ALL walks (sentinel iff unreachable) and parents one hop closer along an edge; "
                   "findGeodesics returns [source], [] or a walk with exactly the minimum number of hops. C11_all_predecessors / C11_find_all_geodesics: findAllVertexPredecessors gives the "
                   "same distances and, per vertex, the duplicate-free list of exactly the in-neighbours one hop closer; findAllGeodesics returns exactly the minimum-length walks, none "
-                  "twice. PARTIAL: the two FromVertex variants are tied to /repo and to a brute-force spec (iterated successor sets, all walks of minimal length) by correspondence only - "
-                  "like everything else here - on every digraph on <=3 vertices, undirected on <=3-4, families with exponentially many shortest paths and random graphs, all "
+                  "twice; C11_(all_)geodesics_from_vertex: the FromVertex variants return, per destination, what the single-destination functions return. Everything is tied to /repo and to a "
+                  "brute-force spec (iterated successor sets, all walks of minimal length) by correspondence on every digraph on <=3 vertices, undirected on <=3-4, families with exponentially many shortest paths and random graphs, all "
                   "source/destination pairs.",
              note=TB + "The searches see a graph only through getOutNeighbours, so one model covers directed and undirected graphs; implementation-chosen values (which parent, which shortest "
                   "path) are validated against the relation rather than fixed.",
@@ -128,7 +130,9 @@ CHECKS.update({
  'C13': dict(text="Theorems C13_tokeniser_two_tokens / C13_tokeniser_label_text / C13_index_round_trip (Coq): the model of findEdgeFromString (npos arithmetic verbatim) returns the two "
                   "vertex tokens for EVERY line ws* tok ws+ tok ws*, and hands everything after the following whitespace to the label parser; std::stoi(std::to_string(n)) = n for n < 2^31. "
                   "C13_file_round_trip(_undirected): writing any graph with int labels in [0,2^31) (<= 3001 vertices: harness limit of the loader model) and loading the bytes gives, after "
-                  "resize, a graph == the original (directed: identical lists). PARTIAL: hand-written files (comment lines anywhere, names) and the name table are checked by correspondence: grammar-generated well-formed "
+                  "resize, a graph == the original (directed: identical lists). C13_(name_)loader_on_wellformed_files / C13_name_table / C13_name_loader_accepts_exactly: on ANY well-formed file (comments anywhere, any blanks, optional label text) "
+                  "both loaders return exactly the graph of the edge lines in order, names are numbered in order of first appearance with names[index x] = x, and the name loader accepts "
+                  "exactly the well-formed files. Tie: grammar-generated well-formed "
                   "files (comments, tabs/spaces anywhere, names, int and string labels) against the model and an independent reading of the format; written files byte-for-byte against "
                   "the model writer and reloaded == original.",
              note=TB + "std::getline, std::string::find_first_of/substr, std::stoi and std::to_string are modelled by hand-written byte-list functions (validated by the correspondence).",
@@ -140,7 +144,8 @@ CHECKS.update({
              note=TB + "Little-endian host assumed; ifstream::read modelled as take-n-or-fail.",
              tech="Coq proof (codec, layout, decode-encode on record lists, graph-level write-load round trip) + differential correspondence on written and hand-made files", ref="DESIGN.md §6 C14"),
  'C15': dict(text="Theorems C15_truncated_binary (Coq): for every record list, label width and EVERY cut offset, the repaired loader returns exactly the graph of the complete records before "
-                  "the cut; C15_text_loaders_total: for EVERY byte string both text loaders end with a graph or a C++ exception (the model never reaches an unchecked index). The pinned "
+                  "the cut; C15_text_loaders_total: for EVERY byte string both text loaders end with a graph or a C++ exception (the model never reaches an unchecked index); "
+                  "C15_text_loader_invents_nothing / C15_name_loader_invents_nothing: every edge of a returned graph comes from a non-comment line whose first two tokens denote its endpoints. The pinned "
                   "loader's invented edge is kept as a kernel-checked example. Tie: every cut offset of generated binary files and a separate malformed-text stream, under ASan+UBSan; a "
                   "crash or sanitizer report is reported as a violation with the input as replay.",
              note=TB + "Memory safety itself is a runtime notion: the model proves definedness of its checked accesses; the sanitizer-instrumented correspondence exhibits the rest. "
